@@ -908,9 +908,10 @@ where
         };
         let max_u_yx = T::from_fn(|x| {
             U::indexes()
+                .filter(|&y| !is_zero(ay[y]))
                 .map(|y| p_yx[x][y] / ay[y])
                 .reduce(<V>::min)
-                .unwrap()
+                .unwrap_or(V::one())
         });
         let weighted_u_yx = T::from_fn(|x| {
             let u = max_u_yx[x];
